@@ -213,7 +213,7 @@ int64_t evaluate_array_ref(
             // 構造体メンバー配列の場合は直接取得
             try {
                 return interpreter.get_struct_member_array_element(
-                    obj_name, member_name, static_cast<int>(index));
+                    obj_name, member_name, Variable::index_to_int(index));
             } catch (const std::exception &e) {
                 // 失敗した場合は従来の方式を試す
                 std::string member_array_element_name =
